@@ -52,6 +52,7 @@ import GoZero.Base.Trace
 import GoZero.C19.Spec
 import GoZero.C19.Cmds
 import GoZero.C19.Outcomes
+import GoZero.C19.CmdTrace
 namespace GoZero.C19
 
 open GoZero
@@ -569,6 +570,12 @@ def whoOf : Op → Nat
   | .acquireS i _ => i
   | _ => 0
 
+/-- command-trace clause on the commands the hook saw during one call -/
+def traceClause (c : Ctx) (r : Report) (outer : Op) (cmds : List String) : Report :=
+  if cmds.any (fun x => x ≠ "evalsha" ∧ x ≠ "evalsha!" ∧ x ≠ "eval" ∧ x ≠ "eval!" ∧ x ≠ "nosubst") then
+    r.violation c.sec c.line s!"command trace: {callName outer} by instance {whoOf outer} sent [{",".intercalate cmds}] — a call must put its own script run (EVALSHA, EVAL after NOSCRIPT) on the wire and nothing else, also on its error paths; any other command is outside the one atomic step the property rests on (an unconditional DEL / SET frees or takes another instance's lock) op=[{c.opTxt}] impl=[{c.impl}]"
+  else r
+
 /-- a `reply` line: Redis executed the script, the Go code was handed `h` instead of the real reply -/
 def checkReply (c : Ctx) (r : Report) (d : DSt) (kind : String) (h : Handed) (outer : Op) (obs : List String) :
     Report × DSt := Id.run do
@@ -580,6 +587,7 @@ def checkReply (c : Ctx) (r : Report) (d : DSt) (kind : String) (h : Handed) (ou
     let some ob := resOfTok resT | return bad
     let cmds := listTok cmdsS
     let cached := cmds.head? ≠ some "evalsha!"
+    r := traceClause c r outer cmds
     let cls := if kind.startsWith "s:" then (if kind = "s:OK" then "string-OK" else "string-other")
       else if kind.startsWith "i:" then (if kind = "i:1" then "int-1" else "int-other") else kind
     r := r.addCover s!"reply-{callName outer}-{cls}"
@@ -609,6 +617,12 @@ def checkReply (c : Ctx) (r : Report) (d : DSt) (kind : String) (h : Handed) (ou
     return (r', d')
   | _ => return bad
 
+def callOfOp (st : St) : Op → Call
+  | .acquire i => .acq i (st.secs i)
+  | .acquireS i s => .acq i s
+  | .release i => .rel i
+  | _ => .rel 0
+
 /-- a `ctx` line: the call entered through the Ctx variant with a caller's context -/
 def checkCtx (c : Ctx) (r : Report) (d : DSt) (kind : String) (p : Nat) (outer : Op) (obs : List String) :
     Report × DSt := Id.run do
@@ -620,17 +634,17 @@ def checkCtx (c : Ctx) (r : Report) (d : DSt) (kind : String) (p : Nat) (outer :
     let some ob := resOfTok resT | return bad
     let cmds := listTok cmdsS
     let cached := cmds.head? ≠ some "evalsha!"
+    r := traceClause c r outer cmds
     -- the round trip before which the context is dead: 0/1 = nothing is ever sent; `far` never fires
     let pEff := if kind = "expired" then 0 else if kind = "far" then 1000 else p
     let m := runCancel real c.cfg d.st outer cached pEff
+    -- the commands the innermost hook sees: the model's command trace (CmdTrace.lean) in the harness' environment
+    let mc := modelCmds c.cfg (callOfOp d.st outer) d.down cached (if kind = "far" then none else some pEff) .nilNoErr
     let head :=
-      if d.down then (if pEff = 0 then "err cmds=-" else "err cmds=evalsha!")
+      if d.down then s!"err cmds={mc}"
       else match m.result with
-        | some b => s!"{resTok outer b} cmds={cmdsText cached}"
-        | none =>
-          -- a context that is dead when the call starts never reaches the connection (go-zero's breaker hook
-          -- returns the context's error first): no command is seen; cancelled before command 1: the EVALSHA fails
-          if pEff = 0 then "err cmds=-" else if m.sent = 0 then "err cmds=evalsha!" else "err cmds=evalsha!,eval!"
+        | some b => s!"{resTok outer b} cmds={mc}"
+        | none => s!"err cmds={mc}"
     r := r.addCover s!"ctx-{kind}-{callName outer}"
     if kind = "cancel" then r := r.addCover s!"ctx-cancel-before-command-{p}"
     if !d.down then
@@ -772,11 +786,29 @@ def runSection (r : Report) (s : Section) : Report := Id.run do
       r := { r with ops := r.ops + 1 }
       match l.obs with
       | [] => r := r.mismatch s.idx l.idx "<result> <store>" impl
-      | res :: dump =>
+      | res :: dump0 =>
         let isCall : Bool := match op with
           | .acquire _ => true
           | .release _ => true
           | _ => false
+        -- command trace of a plain call (`cmds=` right after the result): its own script run and nothing else
+        let (cmdsT, dump) : Option String × List String := match dump0 with
+          | t :: rest => if t.startsWith "cmds=" then (some ((t.drop 5).toString), rest) else (none, dump0)
+          | [] => (none, dump0)
+        let impl := if cmdsT.isSome then joinSp (res :: dump) else impl
+        let c := { c with impl := impl }
+        if isCall then
+          match cmdsT with
+          | none => r := r.mismatch s.idx l.idx "<res> cmds=… <store>" impl
+          | some ct =>
+            let sent := listTok ct
+            let cached := sent.head? ≠ some "evalsha!"
+            let want := modelCmds cfg (callOfOp d.st op) d.down cached none .nilNoErr
+            r := r.addCover (if cached then "trace-evalsha" else if d.down then "trace-evalsha-failed" else "trace-evalsha-noscript-eval")
+            if sent.any (fun x => x ≠ "evalsha" ∧ x ≠ "evalsha!" ∧ x ≠ "eval" ∧ x ≠ "eval!") then
+              r := r.violation s.idx l.idx s!"command trace: {callName op} by instance {whoOf op} sent [{ct}] — a call must put its own script run (EVALSHA, EVAL after NOSCRIPT) on the wire and nothing else; any other command is outside the one atomic step the property rests on (an unconditional DEL / SET frees or takes another instance's lock) op=[{joinSp l.op}] impl=[{joinSp l.obs}]"
+            else if ct ≠ want then
+              r := r.mismatch s.idx l.idx s!"cmds={want}" s!"cmds={ct}"
         if d.down && isCall then
           -- the round trip fails: AcquireCtx / ReleaseCtx return (false, err); nothing reaches the store
           let (r', d') := checkOps c r d [(op, none)] dump (fun _ => "err")
